@@ -263,6 +263,40 @@ def editConfigClose : Bytes := [60,47,101,100,105,116,45,99,111,110,102,105,103,
 def editConfigElem (target config : Bytes) : Bytes :=
   editConfigOpen target ++ config ++ editConfigClose
 
+/-- `<with-defaults xmlns="urn:ietf:params:xml:ns:yang:ietf-netconf-with-defaults">` -/
+def defaultsOpen : Bytes :=
+  [60,119,105,116,104,45,100,101,102,97,117,108,116,115,32,120,109,108,110,115,61,34] ++
+    Gen.Netconf.defaultNamespace ++ [34,62]
+
+/-- `</with-defaults>` -/
+def defaultsClose : Bytes := [60,47,119,105,116,104,45,100,101,102,97,117,108,116,115,62]
+
+/-- `buildDefaultsElem`: no element for the empty mode, an error (`none`) for an unknown mode,
+otherwise the element carrying the caller's mode — whatever the server advertised -/
+def defaultsElem (mode : Bytes) : Option (Option Bytes) :=
+  if mode.isEmpty then some none
+  else if mode == Gen.Netconf.reportAll || mode == Gen.Netconf.reportAllTagged
+      || mode == Gen.Netconf.trim || mode == Gen.Netconf.explicit then
+    some (some (defaultsOpen ++ mode ++ defaultsClose))
+  else none
+
+/-- the part of the driver a request can see, and the part it must not look at -/
+structure DriverState where
+  version : Version          -- d.SelectedVersion
+  selfClose : Bool           -- d.ForceSelfClosingTags
+  noHeader : Bool            -- d.ExcludeHeader
+  messageID : Nat            -- d.messageID
+  serverCaps : List Bytes    -- d.serverCapabilities (everything the server's hello advertised)
+  sessionID : Nat            -- d.sessionID
+  preferred : Option Version -- d.PreferredVersion
+
+/-- `buildPayload` + `serialize` + the writes of `sendRPC` for one marshalled payload:
+(reported input, framed input, bytes written, next state) -/
+def DriverState.request (st : DriverState) (inner : Bytes) : Bytes × Bytes × Bytes × DriverState :=
+  let ser := serialize st.version st.selfClose st.noHeader (rpcBody st.messageID inner)
+  (ser.1, ser.2, sendOne st.version st.selfClose st.noHeader (rpcBody st.messageID inner),
+    { st with messageID := st.messageID + 1 })
+
 /-- specification side: the children of an element whose opening and closing tag texts are known -/
 def childrenOf (openTag closeTag elem : Bytes) : Option Bytes :=
   if hasPrefix elem openTag && hasPrefix elem.reverse closeTag.reverse
